@@ -636,7 +636,7 @@ func agentsCmd(out *cq.Out, seed uint64, tier string) {
 				rig.store.mu.Unlock()
 				mk := func(extra int) *protocol.BatchSnapshots {
 					var b []*protocol.SignedSnapshot
-					for j := 0; j < 6; j++ {
+					for j := 0; j < 1500; j++ { // many shared snapshots: many chances for the two tasks to interleave
 						sg := make([]byte, 64)
 						copy(sg, fmt.Sprintf("shared-%d-%d-%d", lg, t, j))
 						b = append(b, &protocol.SignedSnapshot{Snapshot: signed[j%total].Snapshot, Signature: sg})
@@ -648,10 +648,12 @@ func agentsCmd(out *cq.Out, seed uint64, tier string) {
 				}
 				b1, b2 := mk(1), mk(2)
 				var wg sync.WaitGroup
+				startBoth := make(chan struct{})
 				for _, b := range []*protocol.BatchSnapshots{b1, b2} {
 					wg.Add(1)
-					go func(b *protocol.BatchSnapshots) { defer wg.Done(); runTask(pub, rig.agent, b) }(b)
+					go func(b *protocol.BatchSnapshots) { defer wg.Done(); <-startBoth; runTask(pub, rig.agent, b) }(b)
 				}
+				close(startBoth)
 				wg.Wait()
 				cnt := map[string]int{}
 				rig.store.mu.Lock()
@@ -670,7 +672,7 @@ func agentsCmd(out *cq.Out, seed uint64, tier string) {
 				out.Case(fmt.Sprintf("pubconc:%d:%d", lg, t), true)
 			}
 			if dups > 0 {
-				out.Violate("C19:publisher-forwards-twice:concurrent-overlapping-batches", fmt.Sprintf("in %d of %d trials two different batches sharing six signed snapshots, processed at the same time, both forwarded a shared snapshot", dups, trials), map[string]interface{}{"seed": seed, "trials": trials})
+				out.Violate("C19:publisher-forwards-twice:concurrent-overlapping-batches", fmt.Sprintf("in %d of %d trials two different batches sharing 1500 signed snapshots, processed at the same time, both forwarded a shared snapshot", dups, trials), map[string]interface{}{"seed": seed, "trials": trials})
 			}
 			out.Count("publisher_concurrent_trials", trials)
 
@@ -736,6 +738,69 @@ func agentsCmd(out *cq.Out, seed uint64, tier string) {
 						map[string]interface{}{"seed": seed, "alteration": ai})
 				}
 				out.Case(fmt.Sprintf("dedupe:%d", ai), true)
+			}
+			// ---- the agent's own pipeline, as `qed agent auditor` wires it: message bus -> batch processor (duplicate
+			// filter) -> task manager (10 tasks per tick) -> auditor task -> notifier.  Honest batches raise nothing, every
+			// distinct altered batch raises an alert, a repeated one does not raise a second
+			{
+				conf2 := gossip.DefaultConfig()
+				rigSeq++
+				conf2.NodeName = fmt.Sprintf("c19p-%d-%d", os.Getpid(), rigSeq)
+				conf2.Role = "auditor"
+				conf2.BindAddr = fmt.Sprintf("127.0.0.1:%d", freePorts(1)[0])
+				st2 := gossip.NewRestSnapshotStore([]string{rig.store.srv.URL}, 500*time.Millisecond, 2*time.Second)
+				tm2 := gossip.NewSimpleTasksManager(40*time.Millisecond, 10)
+				rec2 := &recNotifier{}
+				if ag2, err := gossip.NewDefaultAgent(conf2, rig.qed, st2, tm2, rec2, log.L()); err == nil {
+					bp := gossip.NewBatchProcessor(ag2, []gossip.TaskFactory{aud}, log.L())
+					ag2.In.Subscribe(gossip.BatchMessageType, bp, 255)
+					tm2.Start()
+					rig.setTamper(nil)
+					send := func(b *protocol.BatchSnapshots) {
+						payload, _ := b.Encode()
+						ag2.In.Publish(&gossip.Message{Kind: gossip.BatchMessageType, From: gossip.NewPeer("srv", "127.0.0.1", 9, "server"), TTL: 1, Payload: payload})
+					}
+					settle := func(want int) int {
+						got := 0
+						for w := 0; w < 60; w++ {
+							time.Sleep(100 * time.Millisecond)
+							rec2.mu.Lock()
+							got = len(rec2.alerts)
+							rec2.mu.Unlock()
+							if got >= want && w >= 5 {
+								break
+							}
+						}
+						return got
+					}
+					mkAltered := func(i int) *protocol.BatchSnapshots {
+						v := i % total
+						b := &protocol.BatchSnapshots{Snapshots: []*protocol.SignedSnapshot{cloneSigned(signed[v])}}
+						b.Snapshots[0].Snapshot.HistoryDigest = flip(b.Snapshots[0].Snapshot.HistoryDigest, 1+i%250)
+						return b
+					}
+					for i := 0; i < 6; i++ {
+						send(&protocol.BatchSnapshots{Snapshots: []*protocol.SignedSnapshot{cloneSigned(signed[i%total]), cloneSigned(signed[(i+1)%total])}})
+					}
+					if got := settle(0); got != 0 {
+						out.Violate("C19:auditor-false-alert:pipeline", fmt.Sprintf("six honest batches sent through the agent's bus raised %d alerts", got), map[string]interface{}{"seed": seed})
+					}
+					const nAlt = 35
+					for i := 0; i < nAlt; i++ {
+						send(mkAltered(i))
+					}
+					for i := 0; i < 5; i++ {
+						send(mkAltered(i)) // repeated
+					}
+					got := settle(nAlt)
+					if got != nAlt {
+						out.Violate("C19:pipeline-alert-count", fmt.Sprintf("%d distinct altered batches (and 5 repetitions) were sent through the agent's bus in a burst (task manager: 10 tasks per 40 ms tick); %d alerts were raised, expected %d", nAlt, got, nAlt), map[string]interface{}{"seed": seed, "altered": nAlt, "alerts": got})
+					}
+					out.Case("agent-pipeline", true)
+					out.Count("pipeline_batches", 6+nAlt+5)
+					bp.Stop()
+					tm2.Stop()
+				}
 			}
 			// ---- a burst of alerts (many consecutive batches fail, as when the server is compromised) against an alert
 			// endpoint with some latency and the default queue of 10: every alert must arrive
